@@ -179,7 +179,9 @@ func Build(w *WF, rt *Runtime) *sp.Workflow {
 		case KProc:
 			p := wf.NewProc(n.Name, commandPattern(n))
 			for _, o := range n.Outs {
-				p.SetOut(o.Name, o.Pattern)
+				if o.Pattern != "" {
+					p.SetOut(o.Name, o.Pattern)
+				} // else: scipipe's default output path
 			}
 			if n.Cores > 0 {
 				p.CoresPerTask = n.Cores
